@@ -31,11 +31,7 @@ def ackOf : Msg → Option Nat
   | .frame (.acknowledge _ n) => some n
   | _ => none
 
-def isConnect : Msg → Bool
-  | .frame (.connect ..) => true
-  | _ => false
-
-def noConnect (l : List Msg) : Prop := ∀ m ∈ l, isConnect m = false
+def noConnect (l : List Msg) : Prop := ∀ m ∈ l, m.isConnect = false
 
 /-- Everything `a` has sent and `b` has not yet processed, oldest first. -/
 def pathAB (p : PS) : List Msg := p.ab ++ p.a.outq
@@ -152,7 +148,7 @@ structure HalfOpen (x : Nat) (va vb : EV) (fab fba : List Msg) : Prop where
   body : ∃ j oP rest l,
     vb.slot = some (.established j) ∧ vb.objs j = some oP ∧ OnlyObj vb j ∧
     fba = .frame (.acknowledge x vb.opts.rwnd) :: rest ∧
-    (∀ m ∈ rest, isConnect m = false ∧ ackOf m = none) ∧
+    (∀ m ∈ rest, m.isConnect = false ∧ ackOf m = none) ∧
     oP.cap = vb.opts.rwnd ∧ oP.threshold = thresholdFor vb.opts va.opts.rwnd ∧
     oP.rxq = [] ∧ oP.buf = [] ∧ oP.recvdSince = 0 ∧ oP.senderAlive = true ∧
     DirRel oP (newObj va.opts x vb.opts.rwnd [] 0) rest [] (vb.wlog j) [] false l
@@ -165,8 +161,9 @@ structure Linked (x : Nat) (va vb : EV) (fab fba : List Msg) : Prop where
   body : ∃ i j oA oB,
     va.slot = some (.established i) ∧ vb.slot = some (.established j) ∧
     va.objs i = some oA ∧ vb.objs j = some oB ∧ OnlyObj va i ∧ OnlyObj vb j ∧
-    (¬ vb.dq → ∃ l, DirRel oA oB fab fba (va.wlog i) (vb.rlog j) (vb.eof j) l) ∧
-    (¬ va.dq → ∃ l, DirRel oB oA fba fab (vb.wlog j) (va.rlog i) (va.eof i) l)
+    (¬ va.dq → ¬ vb.dq →
+      (∃ l, DirRel oA oB fab fba (va.wlog i) (vb.rlog j) (vb.eof j) l) ∧
+      (∃ l, DirRel oB oA fba fab (vb.wlog j) (va.rlog i) (va.eof i) l))
 
 structure Dead (x : Nat) (va vb : EV) (fab fba : List Msg) : Prop where
   ra : ¬ va.inRng
@@ -217,8 +214,8 @@ theorem Dead.swap {x : Nat} {va vb : EV} {fab fba : List Msg} (h : Dead x va vb 
   ⟨h.rb, h.ra, h.nba, h.nab, h.gone.symm⟩
 
 theorem Linked.swap {x : Nat} {va vb : EV} {fab fba : List Msg} (h : Linked x va vb fab fba) : Linked x vb va fba fab := by
-  obtain ⟨i, j, oA, oB, h1, h2, h3, h4, h5, h6, h7, h8⟩ := h.body
-  exact ⟨h.rb, h.ra, h.nba, h.nab, ⟨j, i, oB, oA, h2, h1, h4, h3, h6, h5, h8, h7⟩⟩
+  obtain ⟨i, j, oA, oB, h1, h2, h3, h4, h5, h6, h7⟩ := h.body
+  exact ⟨h.rb, h.ra, h.nba, h.nab, ⟨j, i, oB, oA, h2, h1, h4, h3, h6, h5, fun hb ha => (h7 ha hb).symm⟩⟩
 
 theorem PhV.swap {x : Nat} {va vb : EV} {fab fba : List Msg} (h : PhV x va vb fab fba) : PhV x vb va fba fab := by
   rcases h with h | h | h | h | h | h | h
